@@ -52,12 +52,14 @@ def shared(ctx):
     Q = 'xtuml.meta:Association.formalize'
     fn = repo.nfunc(Q)
     n = 0
+    getter_names = set()
     for lp in [x for x in fn.body if isinstance(x, ast.For)]:
         if pm.match('zip(self.source_keys, self.target_keys)', lp.iter) is None or not isinstance(lp.target, ast.Tuple) or len(lp.target.elts) != 2:
             continue
         rk, pk = [e.id if isinstance(e, ast.Name) else None for e in lp.target.elts]
-        for node, env in pm.find('setattr(_C, _K, property(partial(fget, ref_name=_P, alt_prop=_A), __))', lp):
+        for node, env in pm.find('setattr(_C, _K, property(partial(_G, ref_name=_P, alt_prop=_A), __))', lp):
             n += 1
+            getter_names.add(src(env['_G']))
             r.check(src(env['_K']) == rk, 'the property is installed under the referential attribute name', node, construct=Q, key='installed-under',
                     msg='formalize installs the property under %s, not under the referential attribute %s' % (src(env['_K']), rk))
             m = pm.match('getattr(_C2, _K2, None)', env['_A'])
@@ -69,7 +71,7 @@ def shared(ctx):
     r.check(n >= 1, 'formalize installs the getter in the loop over the key pairs', fn, construct=Q, key='install-site',
             msg='formalize no longer installs property(partial(fget, ...)) in a loop over zip(source_keys, target_keys)')
     inner = {x.name: x for x in fn.body if isinstance(x, ast.FunctionDef)}
-    fget = inner.get('fget')
+    fget = inner.get(sorted(getter_names)[0]) if len(getter_names) == 1 else None
     if fget is None:
         raise AnalysisError('%s: formalize no longer defines fget' % loc(fn))
     gp = param_names(fget, skip_self=False)
